@@ -31,7 +31,7 @@ RULE = ('2-4 real clients on the real built-in bus; 1-2 exporters with generated
         'with arbitrary read splitting and stalls')
 STATE_MEASURE = 'distinct (clients, proxy kind, calls in flight, outcome kind) tuples'
 PROBES = ['proxy-introspected', 'proxy-explicit', 'proxy-by-name', 'three-calls-in-flight',
-          'two-callers-one-exporter', 'remote-error-mirrored', 'call-to-second-exporter',
+          'two-callers-one-exporter', 'participant-attached-after-another-left', 'remote-error-mirrored', 'call-to-second-exporter',
           'same-serial-two-clients', 'exporter-calls-itself-through-bus', 'big-endian-foreign-call', 'implementation-answers-later',
           'late-answers-out-of-order', 'proxy-with-reordered-or-partial-interfaces',
           'proxy-call-without-interface', 'proxy-introspected-replacing-cache',
@@ -67,7 +67,23 @@ def scenario(ctx):
     ds, sim = ctx.ds, ctx.sim
     rig = BusRig(ctx, creds=ds.flag(0.6), prop='C11')
     nclients = 2 + ds.choose(5 if ctx.tier == 'thorough' else 3)
-    clients = [rig.add_client() for _ in range(nclients)]
+    # churn: some other connection came (anywhere in the attachment order) and went, and one
+    # participant attached only after that
+    churn = ds.flag(0.3)
+    gone_at = ds.choose(nclients) if churn else None
+    clients = []
+    for i in range(nclients):
+        if churn and i == gone_at:
+            bystander = rig.add_client()
+        if churn and i == nclients - 1:
+            rig.call(bystander, bystander['proto'].disconnect)
+            rig.calm()
+            sim.probe('participant-attached-after-another-left')
+        clients.append(rig.add_client())
+    if len(set(rig.unique(c) for c in clients)) != len(clients):
+        raise Violation('C11/attach', 'unique name given twice',
+                        'connections attached at the same time share a unique name: %r'
+                        % [rig.unique(c) for c in clients])
     nexp = 1 if nclients == 2 or ds.flag(0.6) else 2
     exporters = clients[:nexp]
     ctx.config.update(clients=nclients, exporters=nexp)
